@@ -1,4 +1,5 @@
 import Ptn.C17.Model
+import Ptn.C05.DiscModel
 /-! Line-protocol handler for the C17 model (core Lean only).
 
 Request (one line):
@@ -13,7 +14,10 @@ Request (one line):
   in `flat`).
 * queries: `path a b` · `rootpath x` · `dist c` · `linearise` · `subtree x` · `leavesunder x` ·
   `subsize x` · `leaves` · `nn` · `start` · `updatepath` · `cachekeys c` · `segs` (the TDVP
-  segments `u>h …` followed by `last L`) · `nbrs x` (`neighbouring_nodes()`)
+  segments `u>h …` followed by `last L`) · `nbrs x` (`neighbouring_nodes()`) ·
+  `events first|second|twosite` (struct only: the full event sequence of one time step of the
+  TDVP variant, `Ptn.C05.DiscModel`: `site v` · `move a>b` · `link a>b` · `two a>b` · `hop a>b` ·
+  `init c`, space separated; `err` where the code raises, i.e. one node for second / twosite)
 * answer: the answers of the queries joined by ` | `; each is `ok` followed by identifiers
   (`k:v` for dict entries, `a>b` for pairs) or `err` where the Python raises.
 -/
@@ -113,6 +117,13 @@ def answerStruct (t : RTree) (q : List String) : Option String :=
   | ["cachekeys", c] => do
     let c ← c.toNat?
     some (orErr ((t.cacheKeys c).map showPairs))
+  | ["events", which] =>
+    let evs? : Option (Option (List Ptn.C05.Disc.DEv)) :=
+      if which == "first" then some (Ptn.C05.Disc.eventsFirst t)
+      else if which == "second" then some (Ptn.C05.Disc.eventsSecond t)
+      else if which == "twosite" then some (Ptn.C05.Disc.eventsTwoSite t)
+      else none
+    evs?.map fun evs => orErr (evs.map fun l => " ".intercalate ("ok" :: l.map Ptn.C05.Disc.showEv))
   | _ => none
 
 def handle (args : List String) : String :=
